@@ -669,6 +669,12 @@ def _eval_forward_ref(
         ctx.show_error(f"Syntax error in type annotation: {val}")
         return AnyValue(AnySource.error)
     else:
+        # Positions in the parsed string are relative to the string, not to the
+        # file being checked; drop them so that errors are reported at the
+        # annotation itself.
+        for node in ast.walk(tree):
+            for attr in ("lineno", "col_offset", "end_lineno", "end_col_offset"):
+                node.__dict__.pop(attr, None)
         return _type_from_ast(
             tree.body, ctx, is_typeddict=is_typeddict, allow_unpack=allow_unpack
         )
@@ -902,7 +908,7 @@ class _DefaultContext(Context):
         error_code: Error = ErrorCode.invalid_annotation,
         node: Optional[ast.AST] = None,
     ) -> None:
-        if node is None:
+        if node is None or not hasattr(node, "lineno"):
             node = self.node
         if self.visitor is not None and node is not None:
             self.visitor.show_error(node, message, error_code)
